@@ -165,7 +165,7 @@ func runC08(c *Ctx, r *Run) {
 	// ---- DEP-4
 	for _, s := range []struct {
 		rel, typ, method, lit, field string
-		need                          []string
+		need                         []string
 	}{
 		{"protocols/cmp/keygen", "round4", "Finalize", "Config", "ECDSA", []string{"recv.PreviousSecretECDSA", "recv.ShareReceived", "recv.PartyIDs()"}},
 		{"protocols/cmp/keygen", "round4", "Finalize", "Public", "ECDSA", []string{"recv.PreviousPublicSharesECDSA", "recv.VSSPolynomials"}},
